@@ -542,8 +542,8 @@ def ev_sched(case, rec):
 
 
 SUBCHECKS = [
-    Sub('seq', gen_seq, ev_seq, chunk=1, floor=40, timeout=3600),
-    Sub('sched', gen_sched, ev_sched, chunk=1, floor=100, timeout=3600),
+    Sub('seq', gen_seq, ev_seq, chunk=1, floor=40, timeout=3600, poison=False),
+    Sub('sched', gen_sched, ev_sched, chunk=1, floor=100, timeout=3600, poison=False),
 ]
 
 
